@@ -70,6 +70,23 @@ func genOps(g *vh.Gen, n int, mbs []int, sizes []int, p pre) string {
 
 // gen prints COMBO lines (cases without schedule); the model runner's enum mode adds the schedules.
 func gen(g *vh.Gen) {
+	if g.Tier == "stress" {
+		for i := 0; i < 24; i++ {
+			store := []string{"mem", "file"}[i%2]
+			capv, maxkb := 0, 0
+			switch i % 6 {
+			case 2:
+				capv = 3
+			case 4:
+				maxkb = 2
+			}
+			if store == "file" {
+				maxkb = 0
+			}
+			g.Emit("stress", store, strconv.Itoa(capv), strconv.Itoa(maxkb), strconv.Itoa(g.Intn(1000000)), "8", "150")
+		}
+		return
+	}
 	memPre := func(sz int) []pre {
 		s := strconv.Itoa(sz)
 		return []pre{
